@@ -1,19 +1,87 @@
 """Per-property configuration of ./check: theorem registry, streams, oracle, trusted base."""
+import json, os
 
-KERNEL = "Lean 4.33.0 kernel; axioms allowed: propext, Classical.choice, Quot.sound (audited by #print axioms on every registered theorem); no sorry/admit/native_decide/own axioms (source audit)"
-MODEL = "hand-written Lean model of the anchored code (modelled, not verified); tied by the correspondence streams (differential testing, generator quality bounds what it sees) and by extract/extract.py for constants"
-HARNESS = "extract/extract.py, the Rust harness (generators, canonical printers, oracles) and the orchestrator ./check"
+ROOT = os.path.dirname(os.path.dirname(os.path.abspath(__file__)))
+
+KERNEL = "Lean 4.33.0 kernel; axioms allowed: propext, Classical.choice, Quot.sound (audited by #print axioms on every registered theorem); no sorry/admit/native_decide/own axioms (source audit); thorough tier re-checks the compiled module with leanchecker"
+MODEL = "hand-written Lean model of the anchored code (modelled, not verified); tied to /repo on every run by the correspondence streams (differential testing of the real functions against the compiled model driver; generator quality bounds what it sees) and by extract/extract.py for constants"
+HARNESS = "extract/extract.py, the Rust harness (generators, canonical printers, oracles, hooks under cfg mdit_verif) and the orchestrator ./check"
 LIBS = "rustc/std, regex, html_escape, entities, unicode-general-category assumed to meet their documented contracts"
+BASE = [KERNEL, MODEL, HARNESS, LIBS]
 
+try:
+    REG = json.load(open(os.path.join(ROOT, 'lean', 'props_registry.json')))
+except OSError:
+    REG = {}
+
+
+def P(pid, streams, oracle, rule, assumptions, examples=0, extra_modules=()):
+    return dict(theorems=REG.get(pid, []), examples=examples, streams=streams, oracle=oracle, rule=rule,
+                trusted_base=BASE, assumptions=assumptions, extra_modules=list(extra_modules))
+
+
+# (stream, cases quick, cases thorough); oracle = (id, budget quick, budget thorough)
 PROPS = {
-    'C17': dict(
-        theorems=['encode_alphabet', 'encode_ascii'],
-        examples=0,
-        streams=[('url', 4000, 60000)],
-        oracle=('C17', 4000, 80000),
-        rule="url stream: byte strings biased to '%' near the end, hex/non-hex after '%', bytes >= 0x80, 8 safe-set families, both modes; non-trivial = contains a byte >= 0x80 or a '%' within the last three bytes; distinct by hash of the request line",
-        trusted_base=[KERNEL, MODEL, HARNESS, LIBS],
-        assumptions=["bytes are modelled as Nat < 256 (hypothesis `Bytes bs`)",
-                     "AsciiSet is modelled as its 128-bit constant; `has` is only consulted for bytes < 128 (short-circuit in the Rust)"],
-    ),
+    'C01': P('C01', [], ('C01', 6000, 120000),
+             "oracle: parse->render->xrender under catch_unwind on grammar/spec/mutated/adversarial/malformed documents x configuration sample (subsets, orders, max_nesting); non-trivial = contains a markdown-significant character; distinct by hash of (cfg, source)",
+             ["whole-pipeline totality theorem is _partial: mechanism theorems + rule-level correspondence + oracle cover the composition",
+              "hang = wall time beyond 2 s + 1 ms/byte; stack exhaustion is covered by C02"]),
+    'C02': P('C02', [], ('C02', 3000, 20000),
+             "oracle: 16 nesting families x sizes up to the budget x max_nesting in {0,1,3,10,100}; recursion gauge (hook) and tree depth compared with 4*max_nesting+16; non-trivial = size >= 150",
+             ["actual stack exhaustion is a runtime fact; the model bounds frames and depth, the oracle observes the gauge on a 3 GiB-stack thread"]),
+    'C03': P('C03', [('render', 3000, 40000)], ('C03', 4000, 60000),
+             "render stream: escape_html inputs and random event scripts (hostile payloads, empty strings, NUL, LF-terminated texts before cr) replayed into the REAL HTMLRenderer in both modes; oracle: recogniser of the safe output language on rendered hostile/generated documents under html-free configurations; non-trivial = payload with & < or quote / script with cr and >= 3 events",
+             ["tag names and attribute names come from &'static str literals of the shipped node kinds (EventOK hypothesis); the per-kind render model is validated by the recorded-event oracle of C19"]),
+    'C04': P('C04', [], ('C04', 6000, 100000),
+             "oracle: scheme spellings (case, named/decimal/hex references, escapes, embedded controls, percent escapes) x 8 syntactic positions; every Link/Image/Autolink url and every rendered href/src is fed to a WHATWG-style scheme extractor",
+             ["browser behaviour is modelled by WHATWG URL pre-processing (strip C0/space at the ends, drop TAB/LF/CR) + ASCII-case-insensitive scheme"]),
+    'C05': P('C05', [], ('C05', 6000, 100000),
+             "oracle: RangesOk on every parsed tree (root covers input, boundaries, nesting, sibling order, text/markup fidelity) for all generators x configurations with the paragraph rule; non-trivial = tree with more than 3 nodes",
+             ["whole-tree induction is _partial (Layer 3); covered by the oracle"]),
+    'C06': P('C06', [], ('C06', 3000, 60000),
+             "oracle: both metamorphic relations on all tab-free spec inputs (with and without html) and generated/mutated tab-free documents; tree equality modulo the computed shift for the quote relation",
+             ["list relation: every line (blank ones included) indented by the marker width, D contains a non-blank line"]),
+    'C07': P('C07', [], ('C07', 1500, 30000),
+             "oracle: histories of 2-9 documents (reference definitions then uses, unclosed code spans, emphasis lower-bound triggers, fences) on one parser, each compared with a fresh parser (tree with ranges, HTML, XHTML)",
+             ["per-document state is local to one parse call: static scan of interior-mutable items"]),
+    'C08': P('C08', [('ruler', 2000, 30000)], ('C08', 3000, 60000),
+             "ruler stream: add/alias/before/after/remove/contains/iter histories on one REAL Ruler (with its cache) vs the cache-free model; oracle: add/remove/parse histories over 8 rule kinds (custom block, inline with markers x ( e-acute +, core, shipped escape and hr) compared with the same history without intermediate parses",
+             []),
+    'C09': P('C09', [('ruler', 4000, 60000)], ('C09', 4000, 80000),
+             "ruler stream: random rule sets (0-9 rules, aliases, absent marks, self references, duplicates, all priorities) -> order or panic class of the REAL Ruler vs Lean compile; oracle: independent greedy specification in Rust; non-trivial = at least two constraints",
+             ["marks are modelled as Nat; HashMap/HashSet as lists observed through membership only"]),
+    'C10': P('C10', [], ('C10', 4000, 80000),
+             "oracle: LF->CRLF, LF->CR and final-newline relations on the real crate for all generators x configuration sample incl. sourcepos",
+             []),
+    'C11': P('C11', [], ('C11', 4000, 80000),
+             "oracle: payloads (fence look-alikes, entity/escape-like text, tabs, NUL, blank lines) x fenced/indented/span x nesting depth 0-3; node content and rendered <code> compared with the payload",
+             ["span payloads: continuation lines do not start a block construct (block structure wins in CommonMark)"]),
+    'C12': P('C12', [], ('C12', 2500, 30000),
+             "oracle: named references of the entities table (all in thorough), numeric references over boundary classes + random sample in 3 spellings, 32 escapes x 5 contexts; round trip on random printable strings",
+             []),
+    'C13': P('C13', [], ('C13', 4000, 80000),
+             "oracle: k definitions (case/whitespace/case-fold variants, in quotes and items, before/after the use) x 4 use forms; expected target = first definition of the same base label",
+             ["U+0131 dotless i is additionally identified with i/I by lower-then-upper normalisation (documented, not tested as a non-match)"]),
+    'C14': P('C14', [], ('C14', 5000, 100000),
+             "oracle: WF on every parsed tree for all generators x configurations containing the paragraph rule",
+             []),
+    'C15': P('C15', [('smap', 150, 2500)], ('C15', 300, 5000),
+             "smap stream: texts with lines around the checkpoint spacing (14-18, 30-34, 47-49, 64-70 chars), multi-byte characters, CR/LF/CRLF runs; EVERY offset 0..len+2 of each text; oracle: the two counting functions in Rust",
+             []),
+    'C16': P('C16', [], ('C16', 2500, 50000),
+             "oracle: dual-run look-ahead probe (hook) over all generators x configurations (+ custom rules), HTML with probe on = HTML with probe off, custom block rule in both look-ahead styles after every predecessor kind",
+             []),
+    'C17': P('C17', [('url', 4000, 60000)], ('C17', 4000, 80000),
+             "url stream: byte strings biased to '%' near the end, hex/non-hex after '%', bytes >= 0x80, 8 safe-set families, both modes; non-trivial = contains a byte >= 0x80 or a '%' within the last three bytes; distinct by hash of the request line",
+             ["bytes are modelled as Nat < 256 (hypothesis `Bytes bs`)",
+              "AsciiSet is modelled as its 128-bit constant; `has` is only consulted for bytes < 128 (short-circuit in the Rust)"]),
+    'C18': P('C18', [], ('C18', 4000, 80000),
+             "oracle: ![D](x) for generated inline descriptions; alt attribute vs plain-text display of the image node's own children",
+             []),
+    'C19': P('C19', [('render', 3000, 40000)], ('C19', 3000, 60000),
+             "render stream as C03; oracle: independent event-recording Renderer over real trees of all generators x configurations: render twice, tree unchanged, built-in output = reference serialisation of recorded events (HTML and XHTML), length difference = 2 x void elements",
+             []),
+    'C20': P('C20', [('eset', 3000, 40000), ('tree', 2000, 30000)], ('C20', 3000, 60000),
+             "eset stream: op sequences (1-60 ops) over eight Rust types incl. zero-sized and same-layout types on the REAL ErasedSet vs model; tree stream: walk / walk_mut with a mutating callback on random trees; oracle: HashMap<TypeId,_> reference and manual stack pre-order",
+             []),
 }
